@@ -285,6 +285,7 @@ def r03_3(ctx: Ctx):
     ctx.check(init_ok, rid, 'Method.__init__', init.loc(), 'the iteration counter starts at 0',
               'the iteration counter does not start at 0', key=f'{rid}::Method.__init__::zero')
     C.refuse_peeled_loop(rid, drv)
+    C.refuse_comprehension_loop(ctx, rid, drv)
     seen_seed = seen_step = False
     all_loops = {}
     for p in C.normal_paths(ex.explore(drv)):
